@@ -53,7 +53,7 @@ class Running:
 
     def balance(self, acct, count_virtual, extra=()):
         tot = {}
-        for a, v, s, q in list(self.hist) + list(extra):
+        for a, v, s, q in [e[:4] for e in list(self.hist) + list(extra)]:
             if a == acct and (count_virtual or not v):
                 tot[s] = tot.get(s, 0) + q
         return tot
@@ -76,26 +76,27 @@ def gen_history(rng):
         assigned = {}
         for j in range(rng.randrange(1, 4)):
             acct = rng.choice(accts[:-1])
-            kind = 'V' if rng.random() < 0.2 else 'R'
+            kr = rng.random()
+            kind = 'V' if kr < 0.17 else 'B' if kr < 0.27 else 'R'      # (virtual), [balanced virtual], real
             sym = rng.choice(syms)
             r = rng.random()
             lot = None
             if r < 0.25:
                 # assignment: amount-less posting with = X
                 target = amt(rng, sym)
-                bal = run.balance(acct, kind == 'V', extra).get(sym, 0)
+                bal = run.balance(acct, kind != 'R', extra).get(sym, 0)
                 val = target.value - bal
                 p = WPost(acct, kind, None, None, None, target)
                 assigned[len(posts)] = (sym, val)
-                extra.append((acct, kind == 'V', sym, val))
+                extra.append((acct, kind != 'R', sym, val, kind != 'V'))
             else:
                 a = amt(rng, sym)
                 if sym == 'AAA' and rng.random() < 0.3 and not any(q.lot for q in posts):
                     lot = X.Amt(F(rng.randrange(100, 999), 100), 2, '$')
                 p = WPost(acct, kind, a, None, lot)
-                extra.append((acct, kind == 'V', sym, a.value))
+                extra.append((acct, kind != 'R', sym, a.value, kind != 'V'))
                 if r < 0.6 and verdict == 'ok':
-                    bal = run.balance(acct, kind == 'V', extra)
+                    bal = run.balance(acct, kind != 'R', extra)
                     if rng.random() < 0.12:
                         # bare zero: every commodity of the account must be zero
                         p.assigned = X.Amt(F(0), 0, None)
@@ -113,22 +114,27 @@ def gen_history(rng):
             posts.append(p)
             if verdict == 'assert':
                 break
-        # balance the real postings with an elided Equity posting; virtual ones are (unbalanced)
-        if any(q.kind == 'R' for q in posts):
-            posts.append(WPost('Equity:Open', 'R', None))
+        # balance the postings that must balance (real and [balanced virtual]) with an elided posting: mostly a real Equity
+        # posting, sometimes a [balanced virtual] one on one of the accounts under test - what it receives (one generated
+        # posting per commodity) then counts as virtual for every later assertion
+        ekind, eacct = 'R', 'Equity:Open'
+        if any(q.kind != 'V' for q in posts):
+            if rng.random() < 0.25:
+                ekind, eacct = 'B', rng.choice(accts[:-1])
+            posts.append(WPost(eacct, ekind, None))
         x = X.Xact(posts, date='2020/%02d/%02d' % (rng.randrange(1, 13), rng.randrange(1, 29)))
         xs.append(x)
         exp.append(dict(kind=verdict, assigned=assigned))
         if verdict == 'ok':
             run.hist.extend(extra)
-            # what the elided Equity posting receives: minus the real postings, per commodity
+            # what the elided posting receives: minus the must-balance postings, per commodity
             tot = {}
-            for (a, v, s, q) in extra:
-                if not v:
+            for (a, v, s, q, mb) in extra:
+                if mb:
                     tot[s] = tot.get(s, 0) + q
             for s, q in tot.items():
                 if q != 0:
-                    run.hist.append(('Equity:Open', False, s, -q))
+                    run.hist.append((eacct, ekind != 'R', s, -q, True))
     return xs, exp
 
 
@@ -147,7 +153,8 @@ def run(ctx, n_override=None):
     rng = ctx.rng
     res = lib.Result()
     res.rule = ('histories of 1-40 transactions (plus a first transaction teaching every commodity its precision) on 1-4 of 5 '
-                'accounts incl. a sub-account, 1-3 commodities, real and (virtual) postings, lots, dates deliberately out of file '
+                'accounts incl. a sub-account, 1-3 commodities, real, (virtual) and [balanced virtual] postings, an elided amount on a real or a '
+                '[balanced virtual] posting (absorbing up to three commodities), lots, dates deliberately out of file '
                 'order; `= X` on arbitrary postings: true assertions, false ones off by >= 1 display unit, bare-0 assertions, '
                 'assignments; with and without --permissive; non-trivial = the transaction carries an assertion or assignment; '
                 'distinct by rendered text')
